@@ -322,6 +322,7 @@ func init() {
 		o.peCond(fn("readDosHeader", "pe_dos_bad_magic", "(b0 b1 : Z)", "bool",
 			map[string]string{"dosheader[0]": "b0", "dosheader[1]": "b1"}), "dosheader", 0)
 		o.peSlice(fn("readDosHeader", "pe_lfanew_off", "", "Z", nil), "dosheader", 0, 0)
+		o.peCond(fn("readDosHeader", "pe_lfanew_overlaps_dos", "(pe_start : Z)", "bool", map[string]string{"peStart": "pe_start"}), "peStart", 0)
 		o.peCallArg(fn("readDosHeader", "pe_dos_read_len", "", "Z", nil), "readAndHash", 0, 2)
 		// ---- DigestPE: how far the header copy goes before the NT headers
 		o.peCallArg(fn("DigestPE", "pe_dos_stub_len", "(pe_start : Z)", "Z", map[string]string{"peStart": "pe_start"}), "io.CopyN", 0, 2)
@@ -414,22 +415,21 @@ func init() {
 		o.peSlice(fn("checkSignatures", "pe_cs_cert_hi", "(e_size : Z)", "Z", csLeaves), "blob", 1, 1)
 		o.peSlice(fn("checkSignatures", "pe_cs_rest_lo", "(e_end : Z)", "Z", csLeaves), "blob", 2, 0)
 		// ---- checksum.go
-		ckLeaves := map[string]string{"peStart": "pe_start", "h.odd": "odd", "n": "n", "h.cksumPos": "cksum_pos", "i": "i", "ckpos": "ckpos",
+		ckLeaves := map[string]string{"peStart": "pe_start", "h.odd": "odd", "n": "n", "h.cksumPos": "cksum_pos", "i": "i", "abs": "abs", "h.pos": "pos",
 			"sum": "sum", "h.sum": "sum", "h.size": "size", "val": "val", "d[i+1]": "hi", "d[i]": "lo"}
 		o.peCallArg(fn("FixPEChecksum", "pe_fix_write_off", "(pe_start : Z)", "Z", ckLeaves), "f.WriteAt", 0, 1)
 		o.peCond(fn("NewPEChecksum", "pe_ck_no_field", "(pe_start : Z)", "bool", ckLeaves), "peStart", 0)
 		o.peAssign(fn("NewPEChecksum", "pe_ck_pos_none", "", "Z", ckLeaves), "cksumPos", 0)
 		o.peAssign(fn("NewPEChecksum", "pe_ck_pos", "(pe_start : Z)", "Z", ckLeaves), "cksumPos", 1)
 		o.peCond(meth("peChecksum", "Write", "pe_ck_odd_len", "(n : Z)", "bool", ckLeaves), "n%2", 0)
-		o.peCond(meth("peChecksum", "Write", "pe_ck_field_later", "(cksum_pos n : Z)", "bool", ckLeaves), "h.cksumPos > ", 0)
-		o.peCond(meth("peChecksum", "Write", "pe_ck_field_here", "(cksum_pos : Z)", "bool", ckLeaves), "h.cksumPos >= ", 0)
 		o.peCond(meth("peChecksum", "Write", "pe_ck_more", "(i n : Z)", "bool", ckLeaves), "i < n", 0)
-		o.peCond(meth("peChecksum", "Write", "pe_ck_is_field_word", "(i ckpos : Z)", "bool", ckLeaves), "ckpos", 0)
+		o.peAssign(meth("peChecksum", "Write", "pe_ck_abs", "(pos i : Z)", "Z", ckLeaves), "abs", 0)
+		o.peCond(meth("peChecksum", "Write", "pe_ck_is_field_word", "(abs cksum_pos : Z)", "bool", ckLeaves), "abs ==", 0)
+		o.hasStmt(d, "peChecksum", "Write", "h.pos += n", "pe_ck_pos_advances")
 		o.peAssign(meth("peChecksum", "Write", "pe_ck_word", "(hi lo : Z)", "Z", ckLeaves), "val", 0)
 		o.peAssign(meth("peChecksum", "Write", "pe_ck_fold", "(sum : Z)", "Z", ckLeaves), "sum", 1)
 		o.hasStmt(d, "peChecksum", "Write", "sum += val", "pe_ck_adds_word")
 		o.hasStmt(d, "peChecksum", "Write", "h.size += uint32(n)", "pe_ck_counts_len")
-		o.hasStmt(d, "peChecksum", "Write", "h.cksumPos -= n", "pe_ck_pos_moves")
 		o.peAssign(meth("peChecksum", "Sum", "pe_ck_final_fold", "(sum : Z)", "Z", ckLeaves), "sum", 1)
 		o.hasStmt(d, "peChecksum", "Sum", "sum += h.size", "pe_ck_adds_size")
 		// ---- signers/pecoff: the module wires FixPEChecksum as the fixup and VerifyPE as the verifier
